@@ -171,6 +171,8 @@ func (r *Runner) Exec(line string) error {
 		r.emit(op, s.Jump(op), nil, true)
 	case "inspect":
 		r.emit(op, s.Inspect(), nil, false)
+	case "restart":
+		r.emit(op, s.Restart(), nil, true)
 	case "mintprobe":
 		r.emit(op, "accept", s.MintProbe(op.i64("t")), false)
 	case "query":
